@@ -772,7 +772,8 @@ func (db *DB) searchAll(o Object, field, operator string, value interface{}, con
 	fp := fieldPath(field)
 	searchType := search.valueTypeString()
 
-	for obj, err := iter.next(); err == nil && err != ErrEOI; obj, err = iter.next() {
+	var obj Object
+	for obj, err = iter.next(); err == nil; obj, err = iter.next() {
 		var test *indexedField
 		var value interface{}
 		var ok bool
